@@ -104,7 +104,26 @@ def as_bits(x):
 
 
 def op(o: str, xs: list):
+    from .prov import Bits
+
+    raw = xs
     xs = [as_bits(x) for x in xs]
+    if o in ("<<", ">>") and len(xs) == 2:
+        n = concrete(xs[1])
+        if n is None or n < 0:
+            raise NotEvaluable("shift by a symbolic amount")
+        a = xs[0]
+        by_const = isinstance(raw[1], int) and not isinstance(raw[1], Bits)
+        fill = a[-1] if signed(a) and len(a) else 0
+        if o == "<<":
+            # constant amount: the result grows by n bits; signal amount: by 2**len(amount) - 1 bits
+            grow = n if by_const else (1 << len(xs[1])) - 1
+            bits = (0,) * n + tuple(a)
+            return mk(bits + (fill,) * (len(a) + grow - len(bits)), signed(a))
+        kept = tuple(a)[n:]
+        if by_const:
+            return mk(kept or ((fill,) if signed(a) else ()), signed(a))
+        return mk(kept + (fill,) * (len(a) - len(kept)), signed(a))  # signal amount: same width, arithmetic for signed values
     if o in ("&", "|", "^"):
         r = xs[0]
         for y in xs[1:]:
